@@ -254,6 +254,9 @@ type Desc struct {
 	Secs     []Sec  `json:"secs"` // without the null section and the name table (added by Build)
 	Blobs    []Blob `json:"blobs"`
 	Size     int    `json:"size"`
+	// NoNull: the section header table does not start with the customary
+	// all-zero entry; its first entry is the first of Secs.
+	NoNull bool `json:"no_null,omitempty"`
 }
 
 func put(img *[]byte, off uint64, b []byte) {
@@ -312,9 +315,13 @@ func Build(d *Desc) []byte {
 	put(&img, d.StrOff, names)
 
 	secs := []Sec{{}}
+	noffs := []uint32{0}
+	if d.NoNull {
+		secs, noffs = nil, nil
+	}
 	secs = append(secs, d.Secs...)
 	secs = append(secs, Sec{Name: ".shstrtab", Type: SHTStrtab, Off: d.StrOff, Size: uint64(len(names))})
-	noffs := append([]uint32{0}, nameOff...)
+	noffs = append(noffs, nameOff...)
 	noffs = append(noffs, strName)
 
 	is64 := d.Class == 2
